@@ -11,6 +11,7 @@ def run_check(ctx):
     st = coq.proof_stage(ctx, 'Props.C16', VO, FILES)
     finish_proof(ctx, st)
     scale = 1 if ctx.tier == 'quick' else 40
+    if getattr(ctx, 'changed', None) and ctx.tier == 'quick': scale = 5
     rng = ctx.rng
     sc = [0, 1, 2, 3, Q - 1, Q - 2, (Q - 1) // 2, 2**64 - 1, 2**64, 2**128 + 1, 2**252] + [gen.rand_field(rng, Q) for _ in range(6 * scale)]
     lines = ['bls.g1.gen', 'bls.g2.gen', 'bls.g1.zero']
